@@ -71,6 +71,232 @@ pub fn mate_net_pos(e: &mut Entropy) -> Option<Pos> {
     Some(p)
 }
 
+/// Castling that gives check: king and rook(s) on their home squares with the right(s), the
+/// enemy king on the file the castled rook lands on (d for O-O-O, f for O-O) with that file
+/// open, boxed in by a few of its own men and by attackers' pawns/pieces, so that castling is
+/// sometimes the only mate in one (or part of a mate in two).
+pub fn castle_check_pos(e: &mut Entropy) -> Option<Pos> {
+    // steer towards positions where castling mates (judged by the rules oracle): up to eight
+    // candidates are drawn and the first one with a mating castling move is taken
+    let mut fallback: Option<Pos> = None;
+    let mut castle_mate: Option<Pos> = None;
+    for _ in 0..16 {
+        let Some(p) = castle_check_candidate(e) else { continue };
+        let m1 = mate::mate_in_1_moves(&p);
+        if m1.iter().any(|m| m.is_castle()) {
+            // best: castling is the ONLY mate in one
+            if m1.iter().all(|m| m.is_castle()) {
+                return Some(p);
+            }
+            if castle_mate.is_none() {
+                castle_mate = Some(p);
+            }
+        } else if fallback.is_none() {
+            fallback = Some(p);
+        }
+    }
+    castle_mate.or(fallback)
+}
+
+fn castle_check_candidate(e: &mut Entropy) -> Option<Pos> {
+    let mut p = Pos::empty();
+    p.sq[4] = o::mk(true, o::K);
+    let long = e.pick(2) == 0;
+    let both = e.pick(4) == 0;
+    if long || both {
+        p.sq[0] = o::mk(true, o::R);
+        p.cr[1] = true;
+    }
+    if !long || both {
+        p.sq[7] = o::mk(true, o::R);
+        p.cr[0] = true;
+    }
+    let file = if long { 3 } else { 5 };
+    let rank = if e.pick(2) == 0 { 2 } else { 2 + e.pick(6) as i32 }; // ranks 3..8, the 3rd rank favoured (there the castled king's own squares matter)
+    let bk = o::sq(file, rank);
+    p.sq[bk] = o::mk(false, o::K);
+    // squares that must stay empty: between king and rook, and the file from rank 1 up to the king
+    let mut keep: Vec<usize> = vec![1, 2, 3, 5, 6];
+    for r in 0..rank {
+        keep.push(o::sq(file, r));
+    }
+    let near: Vec<usize> = (0..64).filter(|&s| s != bk && (o::file_of(s) - file).abs() <= 1 && (o::rank_of(s) - rank).abs() <= 1).collect();
+    // a minor piece on the far side of the back rank covers the second-rank square next to the
+    // enemy king that the castled king does not reach (e2 for O-O-O, e2 again for O-O from d1/c1)
+    if !both && e.pick(2) == 0 {
+        let (bsq, nsq) = if long { (5usize, 6usize) } else { (3usize, 2usize) };
+        if e.pick(2) == 0 {
+            p.sq[bsq] = o::mk(true, o::B);
+        } else {
+            p.sq[nsq] = o::mk(true, o::N);
+        }
+    }
+    // box the king in: every neighbouring square is, at random, blocked by one of its own men,
+    // covered by an attacker's pawn, or left alone
+    for &s in &near {
+        if p.sq[s] != 0 || keep.contains(&s) {
+            continue;
+        }
+        match e.pick(5) {
+            0 | 1 => {
+                let t = if (1..=6).contains(&o::rank_of(s)) { [o::P, o::P, o::N, o::B][e.pick(4)] } else { [o::N, o::B, o::R][e.pick(3)] };
+                p.sq[s] = o::mk(false, t);
+            }
+            2 | 3 => {
+                // a white pawn attacking s stands one rank below on a neighbouring file
+                let (x, y) = (o::file_of(s), o::rank_of(s));
+                let dx = if e.pick(2) == 0 { 1 } else { -1 };
+                let (px, py) = (x + dx, y - 1);
+                if (0..8).contains(&px) && (1..=6).contains(&py) {
+                    let q = o::sq(px, py);
+                    if p.sq[q] == 0 && !keep.contains(&q) {
+                        p.sq[q] = o::mk(true, o::P);
+                    }
+                }
+            }
+            _ => {}
+        }
+    }
+    // the defender's own men next to its king
+    for _ in 0..e.pick(2) {
+        let c: Vec<usize> = near.iter().copied().filter(|s| p.sq[*s] == 0 && !keep.contains(s)).collect();
+        if c.is_empty() {
+            break;
+        }
+        let s = c[e.pick(c.len())];
+        let t = [o::P, o::P, o::N, o::B, o::R][e.pick(5)];
+        if t == o::P && !(1..=6).contains(&o::rank_of(s)) {
+            continue;
+        }
+        p.sq[s] = o::mk(false, t);
+    }
+    // attackers' men that take away flight squares
+    for _ in 0..e.pick(3) {
+        let t = [o::P, o::P, o::N, o::B, o::R, o::Q][e.pick(6)];
+        let c: Vec<usize> = (0..64).filter(|&s| p.sq[s] == 0 && !keep.contains(&s) && (t != o::P || (1..=6).contains(&o::rank_of(s))) && (o::file_of(s) - file).abs() <= 3).collect();
+        if c.is_empty() {
+            break;
+        }
+        p.sq[c[e.pick(c.len())]] = o::mk(true, t);
+    }
+    for _ in 0..e.pick(3) {
+        let t = [o::P, o::N, o::B, o::R][e.pick(4)];
+        let c: Vec<usize> = (0..64).filter(|&s| p.sq[s] == 0 && !keep.contains(&s) && (t != o::P || (1..=6).contains(&o::rank_of(s)))).collect();
+        if c.is_empty() {
+            break;
+        }
+        p.sq[c[e.pick(c.len())]] = o::mk(false, t);
+    }
+    p.wtm = e.pick(6) != 0;
+    p.hmc = e.pick(12) as u32;
+    p.fmn = 10 + e.pick(40) as u32;
+    if e.pick(2) == 1 {
+        p = p.mirror();
+    }
+    if p.is_valid_start().is_err() || p.legal_moves().is_empty() {
+        return None;
+    }
+    Some(p)
+}
+
+/// A double pawn push that gives check and can only be answered by capturing the pawn en
+/// passant: the enemy king on its 5th rank (seen from the pusher), boxed in; the pusher's pawn on
+/// its home square diagonally below, an enemy pawn beside the push square.  A searcher that
+/// forgets the en-passant evasion takes the push for mate.  Candidates are steered (rules oracle)
+/// towards positions where every legal reply to the push is an en-passant capture, and where a
+/// real mate in one exists as well.
+pub fn ep_evasion_pos(e: &mut Entropy) -> Option<Pos> {
+    let mut fallback: Option<Pos> = None;
+    let mut good: Option<Pos> = None;
+    for _ in 0..24 {
+        let Some(p) = ep_evasion_candidate(e) else { continue };
+        let only_ep = p.legal_moves().into_iter().any(|m| {
+            if !m.is_double() {
+                return false;
+            }
+            let q = p.make(m);
+            let r = q.legal_moves();
+            q.in_check(q.wtm) && !r.is_empty() && r.iter().all(|x| x.is_ep())
+        });
+        if only_ep {
+            if !mate::mate_in_1_moves(&p).is_empty() {
+                return Some(p);
+            }
+            if good.is_none() {
+                good = Some(p);
+            }
+        } else if fallback.is_none() {
+            fallback = Some(p);
+        }
+    }
+    good.or(fallback)
+}
+
+fn ep_evasion_candidate(e: &mut Entropy) -> Option<Pos> {
+    let mut p = Pos::empty();
+    let kf = e.pick(8) as i32;
+    let s = if kf == 0 { 1 } else if kf == 7 { -1 } else if e.pick(2) == 0 { 1 } else { -1 };
+    let pf = kf + s; // file of the pushing pawn
+    let bk = o::sq(kf, 4);
+    p.sq[bk] = o::mk(false, o::K);
+    p.sq[o::sq(pf, 1)] = o::mk(true, o::P);
+    // the capturing pawn beside the push square
+    let cf = if e.pick(2) == 0 { pf + 1 } else { pf - 1 };
+    if !(0..8).contains(&cf) {
+        return None;
+    }
+    p.sq[o::sq(cf, 3)] = o::mk(false, o::P);
+    let keep = [o::sq(pf, 2), o::sq(pf, 3)];
+    let near: Vec<usize> = (0..64).filter(|&q| q != bk && (o::file_of(q) - kf).abs() <= 1 && (o::rank_of(q) - 4).abs() <= 1).collect();
+    for &q in &near {
+        if p.sq[q] != 0 || keep.contains(&q) {
+            continue;
+        }
+        match e.pick(5) {
+            0 | 1 => p.sq[q] = o::mk(false, [o::P, o::P, o::N, o::B][e.pick(4)]),
+            2 | 3 => {
+                let (x, y) = (o::file_of(q), o::rank_of(q));
+                let dx = if e.pick(2) == 0 { 1 } else { -1 };
+                let (px, py) = (x + dx, y - 1);
+                if (0..8).contains(&px) && (1..=6).contains(&py) {
+                    let w = o::sq(px, py);
+                    if p.sq[w] == 0 && !keep.contains(&w) {
+                        p.sq[w] = o::mk(true, o::P);
+                    }
+                }
+            }
+            _ => {}
+        }
+    }
+    // attackers: king and one to three pieces
+    let free = |p: &Pos| -> Vec<usize> { (0..64).filter(|q| p.sq[*q] == 0 && !keep.contains(q)).collect() };
+    let fr: Vec<usize> = free(&p).into_iter().filter(|&q| (o::file_of(q) - kf).abs().max((o::rank_of(q) - 4).abs()) > 1).collect();
+    if fr.is_empty() {
+        return None;
+    }
+    p.sq[fr[e.pick(fr.len())]] = o::mk(true, o::K);
+    for _ in 0..1 + e.pick(3) {
+        let t = [o::Q, o::R, o::R, o::N, o::B][e.pick(5)];
+        let fr = free(&p);
+        p.sq[fr[e.pick(fr.len())]] = o::mk(true, t);
+    }
+    for _ in 0..e.pick(2) {
+        let t = [o::N, o::B, o::R][e.pick(3)];
+        let fr = free(&p);
+        p.sq[fr[e.pick(fr.len())]] = o::mk(false, t);
+    }
+    p.wtm = true;
+    p.hmc = e.pick(12) as u32;
+    p.fmn = 20 + e.pick(40) as u32;
+    if e.pick(2) == 1 {
+        p = p.mirror();
+    }
+    if p.is_valid_start().is_err() || p.legal_moves().is_empty() {
+        return None;
+    }
+    Some(p)
+}
+
 /// Minor-piece ending around a cornered king: kings plus at most one bishop or knight per
 /// side.  Mates in one exist here (e.g. Kb6 + Nc7# against Ka8 with its own piece on b8) but
 /// are rare; the defender's piece is put next to its king to block a flight square.
@@ -249,6 +475,68 @@ pub fn run(ctx: &Ctx) -> Report {
             }
         }
     }
+    // a checking double push whose only answer is the en-passant capture
+    let epe = ctx.tier.pick(12_000, 200_000) / ctx.shard_count() as u32;
+    run_prop(ctx, "c12-ep-evasion", epe, 400, (gen::synth_strategy(), proptest::collection::vec(1u8..=5, 0..=2), 3u8..=4), &mut rep, |(ent, history, last), rep| {
+        let Some(p) = ep_evasion_pos(&mut Entropy::new(ent)) else {
+            rep.class("source:rejected");
+            return Ok(());
+        };
+        if p.legal_moves().len() > 40 {
+            rep.class("skipped:too-wide");
+            return Ok(());
+        }
+        rep.class("source:checking-double-push-setup");
+        let only_ep = p.legal_moves().into_iter().any(|m| {
+            if !m.is_double() {
+                return false;
+            }
+            let q = p.make(m);
+            let r = q.legal_moves();
+            q.in_check(q.wtm) && !r.is_empty() && r.iter().all(|x| x.is_ep())
+        });
+        let mut depths: Vec<u8> = history.clone();
+        depths.push(*last);
+        let classified = check_position(&p, &depths, rep)?;
+        if !classified {
+            rep.class("class:none(not searched)");
+        } else if only_ep {
+            rep.class("classified:checking-double-push-answered-only-by-en-passant");
+        }
+        Ok(())
+    });
+    // castling that gives check (the castled rook is the checking piece)
+    let castles = ctx.tier.pick(24_000, 400_000) / ctx.shard_count() as u32;
+    run_prop(ctx, "c12-castle", castles, 400, (gen::synth_strategy(), proptest::collection::vec(1u8..=5, 0..=2), 3u8..=4), &mut rep, |(ent, history, last), rep| {
+        let Some(p) = castle_check_pos(&mut Entropy::new(ent)) else {
+            rep.class("source:rejected");
+            return Ok(());
+        };
+        if p.legal_moves().len() > 40 {
+            rep.class("skipped:too-wide");
+            return Ok(());
+        }
+        rep.class("source:castling-gives-check-setup");
+        let castle_checks = p.legal_moves().into_iter().filter(|m| m.is_castle() && p.make(*m).in_check(!p.wtm)).count();
+        if castle_checks > 0 {
+            rep.class("source:castling-gives-check-setup:castling-move-checks");
+        }
+        let mut depths: Vec<u8> = history.clone();
+        depths.push(*last);
+        let classified = check_position(&p, &depths, rep)?;
+        if !classified {
+            rep.class("class:none(not searched)");
+        } else if castle_checks > 0 {
+            let a = mate::analyse(&p);
+            if a.m1.iter().any(|m| m.is_castle()) {
+                rep.class("class:M1-by-castling");
+                if a.m1.iter().all(|m| m.is_castle()) {
+                    rep.class("class:M1-only-by-castling");
+                }
+            }
+        }
+        Ok(())
+    });
     let cases = ctx.tier.pick(64_000, 1_600_000) / ctx.shard_count() as u32;
     run_prop(ctx, "c12", cases, 400, strategy(), &mut rep, |c, rep| {
         let p = if c.src == 4 {
@@ -334,7 +622,7 @@ pub fn replay(_ctx: &Ctx, case: &Value) -> Report {
 }
 
 pub const LEVEL: &str = "exploration";
-pub const RULE: &str = "positions (FEN-loaded, no history, half-move clock <= 20) that the oracle's exhaustive 3-ply analysis classifies as M1 (mate in one exists), M2 (no M1, forced mate in two exists) or T (some legal move allows a mate in one and some does not): constructed mate nets (heavy pieces vs an edge king with a pawn shield, sometimes with a pawn on the 7th rank), minor-piece endings around a cornered king, positions of weighted play retracted 0-3 plies from where it ended, and the corpus; x a generated search history on the live cache (0..3 earlier searches of the same position at depths 1..5, never cleared, then depth 3 or 4). Predicates on the move of the last search: M1 => it mates; M2 => it keeps a forced mate (classified: keeps the mate in two / a longer forced mate proven within 4 moves by an AND-OR solver / inconclusive; violation only when provably no forced mate is left: stalemate or a reply reaches a dead position); always => it does not allow a mate in one when a safe move exists. Non-trivial = every classified case; distinct by (class, position, history).";
+pub const RULE: &str = "positions (FEN-loaded, no history, half-move clock <= 20) that the oracle's exhaustive 3-ply analysis classifies as M1 (mate in one exists), M2 (no M1, forced mate in two exists) or T (some legal move allows a mate in one and some does not): constructed mate nets (heavy pieces vs an edge king with a pawn shield, sometimes with a pawn on the 7th rank), minor-piece endings around a cornered king, castling set-ups (king and rook at home with the right, the enemy king boxed in on the d- or f-file in front of the castled rook; steered by the rules oracle towards positions where castling is the only mate in one), checking double pawn pushes whose only answer is the en-passant capture (so the push is not the mate it looks like), positions of weighted play retracted 0-3 plies from where it ended, and the corpus; x a generated search history on the live cache (0..3 earlier searches of the same position at depths 1..5, never cleared, then depth 3 or 4). Predicates on the move of the last search: M1 => it mates; M2 => it keeps a forced mate (classified: keeps the mate in two / a longer forced mate proven within 4 moves by an AND-OR solver / inconclusive; violation only when provably no forced mate is left: stalemate or a reply reaches a dead position); always => it does not allow a mate in one when a safe move exists. Non-trivial = every classified case; distinct by (class, position, history).";
 pub const ASSUMPTIONS: &[&str] = &[
     "the oracle's exhaustive mate-in-1 / forced-mate-in-2 / allows-mate-in-1 predicates (vf/mate.rs)",
     "the chosen move is read from the search's own bestmove line (captured stdout), falling back to the root cache entry",
